@@ -133,11 +133,22 @@ class C03(common.Spec):
                 return edzed.UNDEF if self.state in keep else self.state
             ns['calc_output'] = calc_output
         try:
-            cls = type('GenFSM', (edzed.FSM,), ns)
             if ins.get('subclass'):
                 # the application derives its own class from the FSM class: tables, conditions and
-                # actions are inherited
-                cls = type('SubFSM', (cls,), {})
+                # actions are inherited, and what the derived class redefines wins (every second
+                # callback lives in the derived class, the base class has a decoy of the same name)
+                names = sorted(k for k in ns if k.split('_', 1)[0] in ('cond', 'enter', 'exit'))
+                over = names[::2]
+                base_ns = dict(ns)
+                for k in over:
+                    def decoy(self, _k=k):
+                        log.append(['enter', 'DECOY_' + _k, False, None])
+                        return True
+                    base_ns[k] = decoy
+                cls = type('GenFSM', (edzed.FSM,), base_ns)
+                cls = type('SubFSM', (cls,), {k: ns[k] for k in over})
+            else:
+                cls = type('GenFSM', (edzed.FSM,), ns)
         except Exception as err:
             return dict(class_ok=False, class_err=enum_of(err), events=[])
 
